@@ -74,6 +74,8 @@ PLANS = {
     ],
     # the deliver family on unbounded queues also issues shrink requests: judged for C20 (key "family@tag" runs family)
     "deliver@c20": [("ub", "dbg", "S", (2, 250), (6, 1200)), ("ubL", "dbg", "F", (1, 60), (3, 250)), ("ub", "asan", "S", (1, 100), (3, 400))],
+    # named and plain backtrace statements share ring slots: pairs of an evicted statement must not stick to its successor (judged for C19)
+    "backtrace@c19": [("ub", "dbg", "S", (2, 150), (4, 600))],
     "lifecycle": [
         ("ub", "dbg", "S", (3, 250), (8, 1200)), ("bb", "dbg", "S", (1, 250), (4, 1200)), ("bd", "dbg", "S", (1, 250), (3, 1200)),
         ("ub", "asan", "S", (2, 120), (4, 500)), ("ub", "asan", "F", (2, 40), (5, 160)), ("bb", "asan", "F", (1, 40), (3, 160)),
